@@ -27,7 +27,7 @@ def run(tier, seed, replay=None):
     res.rule = ("generated WMO roots (textures / groups / doodad sets with names sharing prefixes, materials, group infos, portals and references, visibility lists, lights, skybox; "
                 "each list empty / one / many) in every version the writer accepts: write_root -> parse_root -> write_root: parsed content equal to the object, second write "
                 "byte-identical, every header count equal to the length of its list, chunk framing decided by the extracted proved walk, texture names found at the offsets the "
-                "proved name-table function computes; generated groups through write_group / parsers; convert_root / convert_group over version pairs: content representable in "
+                "proved name-table function computes; generated groups through write_group / parsers; convert_root over the whole matrix of versions (with and without skybox) and convert_group over version pairs: content representable in "
                 "both versions kept, same-version conversion the identity; non-trivial = root with two or more names in a table or a conversion; distinct = distinct command")
     res.assumptions = ["objects are compared field by field on the library's structures (debug strings, no PartialEq)",
                        "fields that have no slot in the file format (framebuffer blend, light properties, doodad set index, group materials) are generated with their default values in the main "
@@ -39,8 +39,8 @@ def run(tier, seed, replay=None):
     big = tier == "thorough"
     ib = [C.bin_path("impl_wmo")]
     cases = []          # (tag, command)
-    sizes = lambda: (r.choice([0, 1, 3, 7]), r.choice([0, 1, 2, 5]), r.choice([0, 1, 2, 4]), r.choice([0, 1, 3]), r.choice([0, 2, 4]), r.choice([0, 1, 3]), r.choice([0, 1, 4]), 0, r.choice([0, 1, 3]))
-    for i in range(120 if big else 44):
+    sizes = lambda: (r.choice([0, 1, 3, 7]), r.choice([0, 1, 2, 5]), r.choice([0, 1, 2, 4]), r.choice([0, 1, 3]), r.choice([0, 2, 4]), r.choice([0, 1, 3]), r.choice([0, 1, 4]), 0, r.choice([0, 1, 3, 6]))
+    for i in range(700 if big else 44):
         ver = VERS[i % len(VERS)]
         nt, nm, ng, npo, npr, nv, nl, nd, ns = sizes()
         if nm and not nt:
@@ -48,7 +48,7 @@ def run(tier, seed, replay=None):
         sky = r.choice([0, 1]) if ver != "11" else 0
         cases.append((None, "root %s %x %x %x %x %x %x %x %x %x %x %x" % (ver, 8 * r.randrange(1, 4000), nt, nm, ng, npo, npr, nv, nl, nd, ns, sky)))
     # stale cached header counts (as after an edit): the written counts must still describe the lists
-    for i in range(10 if big else 4):
+    for i in range(60 if big else 4):
         cases.append(("stale-counts", "rootstale %s %x 3 2 %x 1 2 2 2 %x 2 0" % (VERS[i % len(VERS)], 8 * r.randrange(1, 999), r.choice([1, 2]), r.choice([0, 2, 3]))))
     # listed findings, each in a case of its own
     cases += [("named-versions", "root %s 8 3 2 1 1 2 2 2 0 2 1" % v) for v in ("tbc", "wotlk", "cata", "mop")]
@@ -63,6 +63,13 @@ def run(tier, seed, replay=None):
     for a, b in pairs:
         cases.append(("named-versions" if "mop" in (a, b) else None, "convroot %s %s %x 3 2 1 1 2 2 2 0 2 %d" % (a, b, 8 * r.randrange(1, 999), 0 if "11" in (a, b) else 1)))
     cases += [("conv-flags", "convroot 11 wotlk 8 2 2 1 1 1 1 1 0 1 1"), ("conv-flags", "convroot mop 11 9 2 2 1 1 1 1 1 0 1 0")]
+    # the whole matrix of root conversions, with and without a skybox (objects of versions that cannot hold a skybox are built without one)
+    allv = ["11", "12", "13", "14", "17", "tbc", "wotlk", "cata", "mop"]
+    for a in allv:
+        for b in allv:
+            for sky in ((0,) if a in ("11", "tbc") else (0, 1)):
+                cases.append(("named-versions" if b in ("tbc", "wotlk", "cata", "mop") else None,
+                              "convroot %s %s %x 3 2 1 1 2 2 2 0 %x %d" % (a, b, 8 * r.randrange(1, 999), r.choice([2, 6]), sky)))
     for a, b in [("11", "12"), ("12", "11"), ("17", "13"), ("12", "12"), ("11", "cata"), ("17", "cata"), ("cata", "17"), ("13", "12")]:
         cases.append((None, "convgroup %s %s %x 5 9 2 2 1 0 3" % (a, b, 8 * r.randrange(1, 999))))
     # groups carrying the Cataclysm-era flags, converted between versions that all have them
